@@ -37,7 +37,7 @@ def allowed_final(i, sc, facts, states):
     if f["killed"]:
         # killed without a cancel = time limit exceeded (exit 0 arriving in the same instant may win)
         return set(FAILCLASS) | ({"COMPLETED"} if f["exit"] == 0 and sc.get("kill_race") else set())
-    if sc.get("log_fail"):
+    if sc.get("log_fail") is True or i in (sc.get("log_fail") or ()):
         return set(FAILCLASS)  # its output could not be stored: must not be reported completed... or left running
     if f["exit"] == 0:
         # a time limit that elapses in the same instant as the exit may win the race
